@@ -42,7 +42,7 @@ def required_cells(tier):
 
 
 def cases(tier, seed):
-    n, npt = (24, 3) if tier == "quick" else (200, 24)
+    n, npt = (56, 4) if tier == "quick" else (400, 30)
     out = [{"kind": "ancilla", "seed": seed, "idx": i, "tier": tier}
            for i in range(n)]
     out += [{"kind": "pttempo", "seed": seed, "idx": i, "tier": tier}
